@@ -45,14 +45,15 @@ def spectrum(rng, N):
     return E, Z
 
 
-def matrix_corr(rng, E, Z, T, asym=0.0, mask=None, rel=0.01, exact=True):
+def matrix_corr(rng, E, Z, T, asym=0.0, mask=None, rel=0.01, exact=True, weights=None):
+    """G(t) = Z diag(w(t)) Z^T with w_n(t) = exp(-E_n t), or the given positive weights[t][n] (time-independent overlaps)"""
     N = len(E)
     content = []
     for t in range(T):
         if mask is not None and mask[t]:
             content.append(None)
             continue
-        val = (Z * np.exp(-E * t)) @ Z.T
+        val = (Z * (np.exp(-E * t) if weights is None else np.asarray(weights[t]))) @ Z.T
         m = np.empty((N, N), dtype=object)
         for i in range(N):
             for j in range(i, N):
@@ -104,14 +105,27 @@ def gevp_cases(rng, n, ctx, nmax):
         sort = [None, 'Eigenvalue', 'Eigenvector'][int(rng.integers(0, 3))]
         defined = [t for t in range(t0 + 1, T) if not mask[t]]
         ts = int(defined[int(rng.integers(0, len(defined)))])
-        c = matrix_corr(rng, E, Z, T, asym=asym, mask=mask)
+        # time-independent overlaps with weights that are not pure exponentials: the order of the eigenvalues changes with time
+        # (lambda_n(t) = exp(-E_{pi_t(n)} (t - t0)) with a permutation pi_t that is constant on stretches of time) - only a sorting by
+        # eigenvector follows a state through such a crossing
+        weights = None
+        crossing = bool(i % 3 == 1 and not asym)
+        if crossing:
+            perm_t = {}
+            cur = list(range(N))
+            for t in range(t0 + 1, T):
+                if rng.random() < 0.3:
+                    cur = [int(x) for x in rng.permutation(N)]
+                perm_t[t] = cur
+            weights = [np.exp(-E * (t - t0)) if t <= t0 else np.exp(-E[perm_t[t]] * (t - t0)) for t in range(T)]
+        c = matrix_corr(rng, E, Z, T, asym=asym, mask=mask, weights=weights)
         kw = {'sort': sort, 'vector_obs': vector_obs}
         if not vector_obs:
             kw['method'] = method
         if sort != 'Eigenvalue':
             kw['ts'] = ts
         r = _call(lambda: c.GEVP(t0, **kw))
-        cid = 'gevp-%04d-N%d-T%d-t0%d-%s-%s-%s%s%s' % (i, N, T, t0, method if not vector_obs else 'obs', sort, 'asym' if asym else 'sym',
+        cid = 'gevp-%04d-N%d-T%d-t0%d-%s-%s-%s%s%s' % (i, N, T, t0, method if not vector_obs else 'obs', sort, 'asym' if asym else 'cross' if crossing else 'sym',
                                                       '-mask' if any(mask) else '', '-vobs' if vector_obs else '')
         G = pG(c)
         if isinstance(r, Exception):
